@@ -11,6 +11,13 @@ def write_if_changed(path, text):
 
 
 def regenerate(repo, outdir):
+    """returns {Gen file name: error text} for the files whose translation failed (those files are left as they are; every theorem
+    that depends on one of them is reported as no longer checked against the current source)"""
     from harness.translator import tables
-    for name, text in tables.generate(repo).items():
-        write_if_changed(os.path.join(outdir, name), text)
+    errors = {}
+    for name, fn in tables.generators().items():
+        try:
+            write_if_changed(os.path.join(outdir, name), fn(repo))
+        except Exception as e:      # fail closed
+            errors[name] = '%s: %s' % (type(e).__name__, e)
+    return errors
